@@ -303,8 +303,18 @@ fn space_case(rng: &mut Rng, k: usize) {
   let sd2 = fs2.as_sum_diff_space();
   let sdw = ws.as_sum_diff_space();
   let wsd = sd.as_wavelength_space();
+  // the From impls (what `.into()` calls), one for every ordered pair of representations
+  let fs_from_ws: FrequencySpace = ws.into();
+  let fs_from_sd: FrequencySpace = sd.into();
+  let sd_from_ws: SumDiffFrequencySpace = ws.into();
+  let sd_from_fs: SumDiffFrequencySpace = fs.into();
+  let ws_from_fs: WavelengthSpace = fs.into();
+  let ws_from_sd: WavelengthSpace = sd.into();
+  let ws_from_steps: WavelengthSpace = ws.as_steps().into();
   let mut o = json!({"kind": "space", "from": "wavelength", "ws": ws_json(&ws), "fs": fs_json(&fs), "ws2": ws_json(&ws2),
-    "sd": sd_json(&sd), "fs2": fs_json(&fs2), "sd2": sd_json(&sd2), "sd_from_ws": sd_json(&sdw), "ws_from_sd": ws_json(&wsd)});
+    "sd": sd_json(&sd), "fs2": fs_json(&fs2), "sd2": sd_json(&sd2), "sd_from_ws": sd_json(&sdw), "ws_from_sd": ws_json(&wsd),
+    "into": {"fs_from_ws": fs_json(&fs_from_ws), "fs_from_sd": fs_json(&fs_from_sd), "sd_from_ws": sd_json(&sd_from_ws), "sd_from_fs": sd_json(&sd_from_fs),
+             "ws_from_fs": ws_json(&ws_from_fs), "ws_from_sd": ws_json(&ws_from_sd), "ws_from_steps": ws_json(&ws_from_steps)}});
   if nx * ny <= 36 {
     o["ws_si"] = si_json(ws);
     o["fs_si"] = si_json(fs);
@@ -342,6 +352,23 @@ fn space_case(rng: &mut Rng, k: usize) {
   let sd2 = fs.as_sum_diff_space();
   let fs2 = sd2.as_frequency_space();
   emit(json!({"kind": "space", "from": "sumdiff", "sd": sd_json(&sd), "fs": fs_json(&fs), "sd2": sd_json(&sd2), "fs2": fs_json(&fs2)}));
+}
+
+/// the flat (signal, idler) arrays: sequential and parallel iterator, even and odd lengths
+fn array_cases(rng: &mut Rng) {
+  use rayon::iter::ParallelIterator;
+  for len in 0..=9usize {
+    let f: Vec<f64> = (0..len).map(|_| rng.range(1.0e15, 1.4e15)).collect();
+    let w: Vec<f64> = (0..len).map(|_| rng.range(0.4e-6, 3e-6)).collect();
+    let fa = SignalIdlerFrequencyArray(f.iter().map(|x| hz(*x)).collect());
+    let wa = SignalIdlerWavelengthArray(w.iter().map(|x| *x * M).collect());
+    let fseq: Vec<(f64, f64)> = fa.clone().into_signal_idler_iterator().map(|(a, b)| (fv(a), fv(b))).collect();
+    let fpar: Vec<(f64, f64)> = fa.into_signal_idler_par_iterator().map(|(a, b)| (fv(a), fv(b))).collect();
+    let wseq: Vec<(f64, f64)> = wa.clone().into_signal_idler_iterator().map(|(a, b)| (fv(a), fv(b))).collect();
+    let wpar: Vec<(f64, f64)> = wa.into_signal_idler_par_iterator().map(|(a, b)| (fv(a), fv(b))).collect();
+    emit(json!({"kind": "array_iter", "len": len, "freq_list": fxs(&f), "freq_seq": flat(&fseq), "freq_par": flat(&fpar),
+      "wl_list": fxs(&w), "wl_seq": flat(&wseq), "wl_par": flat(&wpar)}));
+  }
 }
 
 fn cx(v: &[Complex<f64>]) -> Value {
@@ -508,6 +535,15 @@ pub fn run(args: &[String]) {
     for k in 0..(20 * n) {
       steps2d_case(&mut rng, k, 1500);
     }
+    // a seed-dependent number of further random ranges
+    let extra = rng.below(24);
+    for k in 0..extra {
+      steps_case(&mut rng, 4 + 8 * k);
+    }
+    array_cases(&mut rng);
+    // magnitudes at which start * (d - i) leaves the binary64 range (outside the guard of the value clauses)
+    let big = Steps(1e306, 1.5e306, 300);
+    emit(json!({"kind": "steps_overflow", "call": "Steps(1e306, 1.5e306, 300).value(1)", "value": fx(big.value(1)), "finite": big.value(1).is_finite()}));
     idx_cases(&mut rng, 50 * n);
     transpose_cases(&mut rng);
     for k in 0..(10 * n) {
